@@ -53,3 +53,26 @@ MUTANTS += [
     M("c08-reply-in-try", "C08", "reply sent inside try: failure of send answered twice", (P, "            res = self._HANDLERS[handler](self, *args)\n        except:", "            res = self._HANDLERS[handler](self, *args)\n            if handler == consts.HANDLE_CALL and type(res) is list:\n                self._send(consts.MSG_REPLY, seq, self._box(res))\n        except:")),
     M("c08-bad-handler-silent", "C08", "unknown handler id silently ignored", (P, "            handler, args = raw_args\n            args = self._unbox(args)", "            handler, args = raw_args\n            if handler not in self._HANDLERS:\n                return\n            args = self._unbox(args)")),
 ]
+
+MUTANTS += [
+    # ---- C03
+    M("c03-no-tuple-branch", "C03", "_box: mixed tuples go by reference as a whole", (P, "        if type(obj) is tuple:\n            return consts.LABEL_TUPLE, tuple(self._box(item) for item in obj)\n        elif", "        if False:\n            pass\n        elif")),
+    M("c03-no-proxy-cache", "C03,C10", "proxy cache not consulted", (P, "            if id_pack in self._proxy_cache:", "            if False and id_pack in self._proxy_cache:")),
+    M("c03-netref-rebox", "C03", "own netref boxed as a new remote ref (echo gives proxy of proxy)", (P, "        elif isinstance(obj, netref.BaseNetref) and obj.____conn__ is self:", "        elif isinstance(obj, netref.BaseNetref) and obj.____conn__ is self and obj.____id_pack__[2] % 5:")),
+    M("c03-bool-as-int", "C03,C04,C19", "bool dumped through the int path when inside tuples", (B, "@register(_dump_registry, bool)\ndef _dump_bool(obj, stream):\n    if obj:", "@register(_dump_registry, bool)\ndef _dump_bool(obj, stream):\n    if len(stream) > 3:\n        stream.append(IMM_INTS[int(obj)])\n    elif obj:")),
+    M("c03-slice-dumpable", "C03,C04", "dumpable ignores slice.step", (B, "return dumpable(obj.start) and dumpable(obj.stop) and dumpable(obj.step)", "return dumpable(obj.start) and dumpable(obj.stop)")),
+    M("c03-fset-subclass", "C03", "frozenset subclass treated as value", (B, "    if type(obj) in (tuple, frozenset):\n        return all", "    if type(obj) is tuple or isinstance(obj, frozenset):\n        return all")),
+    M("c03-obtain-no-copy", "C03", "obtain returns the proxy for lists", (CL, "    return pickle.loads(pickle.dumps(proxy))", "    return proxy if len(proxy) == 3 else pickle.loads(pickle.dumps(proxy))")),
+]
+
+MUTANTS += [
+    # ---- C01
+    M("c01-revert-stopiter", "C01,C09", "StopIteration fast path loses args again (revert of 819a62c)", (V, '    if typ is StopIteration and not getattr(val, "args", None):', "    if typ is StopIteration:")),
+    M("c01-drop-kwargs", "C01", "_handle_call drops keyword arguments when there are > 1", (P, "        return obj(*args, **dict(kwargs))", "        return obj(*args, **dict(kwargs[:1]))")),
+    M("c01-call-twice", "C01", "callable invoked twice when it returns None", (P, "        return obj(*args, **dict(kwargs))", "        r = obj(*args, **dict(kwargs))\n        return obj(*args, **dict(kwargs)) if r is None else r")),
+    M("c01-localref-proxy", "C01,C03", "LOCAL_REF inside tuples resolves to a fresh proxy of own object", (P, "        if label == consts.LABEL_LOCAL_REF:\n            return self._local_objects[value]", "        if label == consts.LABEL_LOCAL_REF:\n            return self._local_objects[value] if value[2] % 3 else self._netref_factory(value)")),
+    M("c01-serve-under-lock", "C01,C13", "dispatch moved inside the receive lock (serve not re-entrant)", (P, "        finally:\n            self._recvlock.release()\n            with self._recv_event:\n                self._recv_event.notify_all()\n        self._dispatch(data)\n        return True", "            self._dispatch(data)\n        finally:\n            self._recvlock.release()\n            with self._recv_event:\n                self._recv_event.notify_all()\n        return True")),
+    M("c01-exc-class", "C01,C09", "KeyError arrives as LookupError", (V, "    elif modname == exceptions_module.__name__:\n        cls = getattr(exceptions_module, clsname, None)", "    elif modname == exceptions_module.__name__:\n        cls = getattr(exceptions_module, clsname if clsname != 'KeyError' else 'LookupError', None)")),
+    M("c01-kwargs-order", "C01", "async call loses keyword arguments", (H, "        return asyncreq(self.proxy, HANDLE_CALL, args, tuple(kwargs.items()))", "        return asyncreq(self.proxy, HANDLE_CALL, args, tuple(kwargs.items())[:1])")),
+    M("c01-args-reversed-in-tuple", "C01", "LABEL_TUPLE of length 4 unboxed reversed", (P, "            return tuple(self._unbox(item) for item in value)", "            return tuple(self._unbox(item) for item in (value if len(value) != 4 else value[::-1]))")),
+]
